@@ -570,22 +570,27 @@ HOOK_COMMITS = ["6f869d9", "e935e32", "bce5a7c"]
 _STORE_MORE = ("; further families: one identity written at instants near both ends of the nanosecond range and in between, the same "
                "content reported again at a later instant, rewrites at the same instant that change only fields no checksum covers, "
                "cycle-closing edges created deleted as well as live, one script in twenty with a chain of 36 nodes written at its bottom, "
+               "every second large batch writes 45 identities two or three times each in no particular order, one point in twenty carries a 310-byte text "
+               "with one of three endings, one refusal script in four ends with a refused root tombstone followed by a new top-level node and a write to it; "
                "the request kinds sent are counted in the distribution (request-kind:*)")
 _RULE_MORE = {
     "C01": _STORE_MORE, "C03": _STORE_MORE, "C05": _STORE_MORE, "C06": _STORE_MORE,
     "C02": "; further families: points with tombstone counters and payloads, points without a type, nodes without any point, a point deleted "
-           "during the outage, a bare node created upstream while the link is up, creations on either side in the up-only histories",
+           "during the outage, a bare node created upstream while the link is up, creations on either side in the up-only histories, one history in eight "
+           "restarts the upstream instance on its address (the link drops at the NATS level and comes back by itself) and creates a node with a child there "
+           "before the downstream has reconnected, one point in eight is dated 36 hours ahead of the wall clock",
     "C04": "; further families: one 230-point batch, a rewrite at the same instant with the same checksum, an edge point on the former root's edge "
            "after the root moved, and resumed runs (c04-resume: the store carries on after recovery and its final dump is compared as well)",
-    "C07": "; children are created with the client's own origin; one layout in six nests groups; workers give up above 3 GiB of heap",
+    "C07": "; children are created with the client's own origin; one layout in six nests groups, one in twelve nests twenty groups with a managed node at the bottom; workers give up above 3 GiB of heap",
+    "C08": "; the client's configuration has a uint8 field declared before the others and one history in three ends with a foreign batch holding a value that field refuses (-3 or 300) next to a description and a value",
     "C09": "; a bearer token that expires between two uses, secondary credential points (alternative e-mail / password) written during the history",
     "C11": "; slices grown to the size limit by an earlier call, member keys beyond the declared ones",
     "C12": "; a decoy value encoded between encode and decode of the observed one, value round trips right after failed decodes",
     "C13": "; incoming points that carry the rule's own origin",
     "C15": "; a moved top node (imported at its live placement), texts equal to node ids, indented multi-line texts, one node with 520 living children",
     "C17": "; a decoy packet encoded while the observed one is still held",
-    "C18": "; register maps built from overlapping AddReg ranges, validators installed and lifted again (set to nil)",
-    "C19": "; the same builders as C18, registers added while the server is serving (call 7, 30 sessions), every conversion called twice",
+    "C18": "; register maps built from overlapping AddReg ranges and declared ascending, descending, odd positions first or with the middle backwards, validators installed and lifted again (set to nil)",
+    "C19": "; the same builders as C18 (declaration orders included), read responses of short length must be rejected, registers added while the server is serving (call 7, 30 sessions), every conversion called twice",
     "C20": "; a parent that keeps growing, refused requests among the writers and two clients sending only refused requests, maintenance runs "
            "for one verification in three, requests still on their way when the instance is stopped (one round in three)",
     "C10": "; second values of diff/merge pairs that share a slice's storage with the first",
